@@ -231,9 +231,7 @@ func arrayExecMerge(ar *Array, values []r.Element) (r.Element, error) {
 		varr := v.(*Array).value
 		result = append(result, varr...)
 	}
-	// update new array
-	ar.value = result
-
+	// the receiver is left unchanged: 合并 forms a new array
 	return NewArray(result), nil
 }
 
